@@ -633,10 +633,9 @@ class SimplicialComplex(Hypergraph):
                 self._node[n].add(idx)
 
             self._edge_attr[idx] = self._edge_attr_dict_factory()
+            update_uid_counter(self, idx)
             self._edge_attr[idx].update(attr)
             self._edge_attr[idx].update(eattr)
-
-            update_uid_counter(self, idx)
 
             # store subfaces
             faces += self._subfaces(members)
